@@ -6,7 +6,10 @@
 (* (Session.AddTorrent, Start) against Metainfo.tla.                       *)
 (*                                                                         *)
 (* Every line is one call on one input:                                    *)
-(*   site  new | ni1 | ni2 | add | np | start                              *)
+(*   site  new | ni1 | ni2 | add | np | start  (default session)           *)
+(*         addl | url | res | mag   the file, URL-body, resume-record and  *)
+(*         magnet (info from a peer) paths on a session with lowered       *)
+(*         limits: the same WellFormed + limits judgement for every path   *)
 (*   acc   1 iff the call accepted the input                               *)
 (*   pl, n, lens, pad   projection of the accepted description (limbs,     *)
 (*                      base 10000, little endian; sign of a length apart) *)
@@ -14,6 +17,8 @@
 (*   st, steps          measured number of file sections built (site np)   *)
 (*   ev, where          hang | crash | oom observed by the watchdog        *)
 (*   akb, ikb           bytes allocated by the call / size of its input    *)
+(*   ret, ms, tmo       site url: did AddURI return, after how many ms,    *)
+(*                      under which Config.TorrentAddHTTPTimeout (ms)      *)
 (*                                                                         *)
 (* The lines are independent, the only state is the position l.  A failed  *)
 (* obligation does not block the step: its tag is stored in viol AND       *)
@@ -33,7 +38,9 @@ P64 == [b |-> 10000, imax |-> <<5807, 7547, 3685, 3720, 922>>]   \* 2^63-1 = 922
 
 Limbs(s) == \A i \in 1 .. Len(s) : s[i] \in 0 .. 9999
 Sane(e) ==
-    /\ e.site \in {"new", "ni1", "ni2", "add", "np", "start"}
+    /\ e.site \in {"new", "ni1", "ni2", "add", "np", "start", "addl", "url", "res", "mag"}
+    /\ e.ret \in {0, 1} /\ e.ms \in Nat /\ e.tmo \in Nat
+    /\ e.site \in {"addl", "url", "res", "mag"} => e.lim = 1
     /\ e.acc \in {0, 1} /\ e.lim \in {0, 1} /\ e.st \in {0, 1}
     /\ e.ev \in {"", "hang", "crash", "oom"}
     /\ Limbs(e.pl) /\ Limbs(e.n) /\ Limbs(e.size) /\ Limbs(e.maxn) /\ Limbs(e.maxsz) /\ Limbs(e.steps)
@@ -46,9 +53,14 @@ Sane(e) ==
 \* @obligation C06.oom    no runaway allocation (heap cap far above the linear bound)
 \* @obligation C06.alloc  memory allocated by a call is bounded linearly by the size of its input
 AllocBound(e) == 16384 + 256 * e.ikb          \* KiB: 16 MiB + 256 x input
+\* @obligation C06.hang (site url)  AddURI over http returns - ok or error - within the configured time-out + slack,
+\*   whatever the server does (silence before / inside the head, silence or a slow drip inside the body, endless body,
+\*   redirect loop): the design is MetainfoFetch.tla (the time-out covers the whole exchange, the read is capped).
+UrlSlackMs == 5000
 CaseViol(e) ==
     IF e.ev = "crash" THEN "C06.crash"
     ELSE IF e.ev = "hang" THEN "C06.hang"
+    ELSE IF e.site = "url" /\ (e.ret = 0 \/ e.ms > e.tmo + UrlSlackMs) THEN "C06.hang"
     ELSE IF e.ev = "oom" THEN "C06.oom"
     ELSE IF e.akb > AllocBound(e) THEN "C06.alloc"
     ELSE IF e.acc = 1 \/ e.st = 1 THEN
